@@ -54,6 +54,12 @@ def outcomeField : Outcome → String
   | .sinkErr => kv "res" "sinkerr"
   | .sourceErr => kv "res" "srcerr"
 
+/-- on `Ok` the writer holds exactly the document `serialize` produces (`bytes=` for `sink`,
+`same=` for `src`) -/
+def sameField (key : String) (n : Nat) (ts : List Triple) : Outcome → List String
+  | .ok d => [kv key (if serialize n ts == some d then (if key == "same" then "1" else "same") else "differ")]
+  | _ => []
+
 def handle (line : String) : String :=
   match fields line with
   | "ser" :: n :: toks =>
@@ -79,12 +85,15 @@ def handle (line : String) : String :=
       | some doc =>
         let need := utf8Len doc
         let limit := if rel then need - k else k
-        reply [outcomeField (serializeTriples n ts false (some limit)), kvN "written" (min limit need),
-               kvN "refused" (if limit < need then 1 else 0)]
+        let r := serializeTriples n ts false (some limit)
+        reply ([outcomeField r, kvN "written" (min limit need), kvN "refused" (if limit < need then 1 else 0)]
+               ++ sameField "bytes" n ts r)
     | _, _, _ => "bad-op"
   | "src" :: n :: k :: toks =>
     match n.toNat?, k.toNat?, parseTriples (toks.length + 1) toks with
-    | some n, some k, some ts => outcomeField (serializeTriples n (ts.take k) (decide (k < ts.length)) none)
+    | some n, some k, some ts =>
+      let r := serializeTriples n (ts.take k) (decide (k < ts.length)) none
+      reply (outcomeField r :: sameField "same" n ts r)
     | _, _, _ => "bad-op"
   | ["split", h] =>
     match charsOfHex h with
